@@ -18,6 +18,7 @@ COMP_IDS = "ABCDEFGHJKLMNPQRSTU"
 COMP_IDS_LATE = "WXYZ"
 COMP_IDS_LOW = "kmnq"
 COMP_IDS_NUM = ["R10", "R9", "x11", "x3"]
+COMP_IDS_VARLIKE = ["VARIANT", "VARX", "VAR1"]   # user-given names that merely start like generated ids
 BOUNDS_FAMILIES = {
     "small": [(0, 2), (0, 3), (1, 3), (-1, 1), (-2, 2), (0, 1)],
     "twin": [(0, 2), (1, 1), (0, 3), (1, 2), (-1, 2), (-2, 2), (0, 4), (1, 3), (2, 2)],
@@ -258,6 +259,8 @@ class Gen:
                 free = [c for c in COMP_IDS_LOW if c not in used and c not in self.leafb] or free
             elif r0 < 0.26 or (self.numeric_world and r0 < 0.6):
                 free = [c for c in COMP_IDS_NUM if c not in used and c not in self.leafb] or free
+            elif r0 < 0.31:
+                free = [c for c in COMP_IDS_VARLIKE if c not in used] or free
             if free:
                 i = rng.choice(free[:8])
                 used.add(i)
@@ -693,7 +696,7 @@ class Gen:
         for i in chosen:
             w = rng.choice([-3, -2, -2, -1, -1, 1, 1, 2, 3, 5] + ([0] if allow_zero else []))
             if rng.random() < 0.04:
-                w = rng.choice([127, 128, 300, 1000, -129, -200, 40000, 2 ** 31])   # past int8/int16/int32
+                w = rng.choice([127, 128, 300, 1000, -129, -200, 40000, 2 ** 31, 2 ** 53 + 1, -(2 ** 60) - 1])   # past int8/16/32 and past float64's 53 bits
             if self.num_weights and rng.random() < 0.5:
                 w = [rng.choice(["np", "fl"]), w]   # the caller hands numpy integers / integral floats
             d.append([i, w])
